@@ -5,6 +5,7 @@ run in a virtual-time event loop (tools/asyncsim_conc) with 2-4 callers; at ever
 quiescent point the explorer chooses the next environment event.  Every recorded
 trace must be accepted by the Lean interleaving model (m_drv), and the property's
 observable statements are asserted independently on the real objects."""
+from common import exc_name  # noqa: E402
 import os
 import sys
 
@@ -181,7 +182,7 @@ def closeable_suite(ctx, corr):
                             except StopIteration:
                                 out = "swallowed the CancelledError"
                     except BaseException as e:  # noqa
-                        out = "%s(%s)" % (type(e).__name__, e)
+                        out = "%s(%s)" % (exc_name(e), e)
                     if out == "closed" and inspect.getgeneratorstate(gg) != inspect.GEN_CLOSED:
                         out = "generator still " + inspect.getgeneratorstate(gg)
                     if out != "closed":
@@ -221,7 +222,7 @@ def replay(ctx, payload):
                     pass
             out = "closed" if inspect.getgeneratorstate(g) == inspect.GEN_CLOSED else inspect.getgeneratorstate(g)
         except BaseException as e:  # noqa
-            out = "%s(%s)" % (type(e).__name__, e)
+            out = "%s(%s)" % (exc_name(e), e)
         print("sequence", inp["sequence"], "after", inp["yields consumed"], "yields,", inp["ended by"], "->", out)
         return out != "closed"
     return suite.replay_failure(payload)
